@@ -47,6 +47,30 @@ def check_history(start, calls):
     return None
 
 
+def check_arg_and_kwargs(start, arg, kw):
+    """one set(arg, **kwargs) call == the same assignments made one at a time, arg's items first, then the keyword
+    arguments (documented order), and leaving the context restores the configuration"""
+    import dask.config as C
+
+    cfg, ref = copy.deepcopy(start), copy.deepcopy(start)
+    try:
+        for k, v in list(arg.items()) + [(k.replace("__", "."), v) for k, v in kw.items()]:
+            C.set({k: copy.deepcopy(v)}, config=ref)
+    except Exception:
+        return None  # the sequence itself is not a valid series of assignments (e.g. a path below a scalar)
+    before = copy.deepcopy(cfg)
+    try:
+        ctx = C.set(copy.deepcopy(arg), config=cfg, **copy.deepcopy(kw))
+    except Exception as e:  # noqa
+        return f"set({arg!r}, **{kw!r}) raised {type(e).__name__}: {e}, although the same assignments one at a time succeed"
+    if cfg != ref:
+        return f"set({arg!r}, **{kw!r}) gives {cfg!r}; the same assignments one at a time (mapping first, then keywords) give {ref!r}"
+    ctx.__exit__(None, None, None)
+    if cfg != before:
+        return f"leaving set({arg!r}, **{kw!r}) did not restore the configuration: {before!r} -> {cfg!r}"
+    return None
+
+
 def _canon(p):
     return p.replace("-", "_")
 
@@ -83,6 +107,15 @@ def set_sweep(tier, seed=0):
                     break
         if len(fails) >= 5:
             break
+    # a mapping together with keyword arguments (a keyword may repeat a key of the mapping, or a prefix of one)
+    kw_keys = ["x__y", "a__b", "a", "x", "a_b", "a__b__c"]
+    for start in STARTS:
+        for arg in singles[:12] + pairs[:40] + [{"x.y": 1, "x": {"z": 0}}, {"a.b": 1, "a": {"c": 0}}]:
+            for kk in kw_keys:
+                cases += 1
+                msg = check_arg_and_kwargs(start, arg, {kk: 2})
+                if msg and len(fails) < 5:
+                    fails.append(rtc.Failure("config.set", {"start": start, "calls": [arg], "kwargs": {kk: 2}}, "ensures", "C17-scoped-and-atomic", msg))
     return {"function": "dask/config.py:set/get (real code)", "bounded": True,
             "bound": {"paths": PATHS, "values": [repr(v) for v in VALUES[:3]], "start configs": len(STARTS), "nesting depth": 2, "assignments per call": "1-2 (duplicates / scalar prefixes included)"},
             "cases": cases, "distinct_nontrivial": cases, "failures_found": len(fails), "wall_s": round(time.time() - t0, 2),
@@ -232,6 +265,33 @@ def merge_sweep(tier, seed=0):
                 fails.append(rtc.Failure("config.collect_env", {"env": env}, "ensures", "C17-env-collection", f"collect_env gives {got!r}, documented {want!r}"))
         except Exception as e:  # noqa
             fails.append(rtc.Failure("config.collect_env", {"env": env}, "exception", type(e).__name__, repr(e)))
+    # variables next to an inherited configuration (DASK_INTERNAL_INHERIT_CONFIG): every DASK_* variable is visible at its
+    # path (it is the more specific source), inherited entries it does not touch stay
+    inherited_cfgs = [{"a": {"b": {"d": 0, "k": 0}}, "e": {"f": 0}}, {"array": {"svg": {"size": 150}}}, {"x": 1, "y": {"z": 2}}, {}]
+    envs = [({"DASK_A__B": "off"}, {"a.b": "off"}), ({"DASK_ARRAY__SVG": "False"}, {"array.svg": False}), ({"DASK_X": "2"}, {"x": 2}), ({"DASK_A__B__D": "5"}, {"a.b.d": 5}),
+            ({"DASK_Y": "{'q': 1}"}, {"y": {"q": 1}}), ({"DASK_E__F": "7", "DASK_A__B": "[1]"}, {"e.f": 7, "a.b": [1]})]
+    for inh in inherited_cfgs:
+        for env, visible in envs:
+            cases += 1
+            try:
+                full = dict(env, DASK_INTERNAL_INHERIT_CONFIG=C.serialize(inh))
+                got = C.collect_env(full)
+                got.pop("internal_inherit_config", None)
+                msg = None
+                for path, val in visible.items():
+                    if C.get(path, config=got, default="<absent>") != val:
+                        msg = f"collect_env({env!r} + inherited {inh!r}): get({path!r}) = {C.get(path, config=got, default='<absent>')!r}, the variable says {val!r}"
+                        break
+                if msg is None:
+                    for k, v in inh.items():
+                        touched = any(p.split(".")[0].replace("-", "_") == k.replace("-", "_") for p in visible)
+                        if not touched and got.get(k) != v:
+                            msg = f"collect_env({env!r} + inherited {inh!r}) lost the inherited entry {k!r}: {got!r}"
+                            break
+            except Exception as e:  # noqa
+                msg = f"{type(e).__name__}: {e}"
+            if msg:
+                fails.append(rtc.Failure("config.collect_env", {"env": env, "inherited": inh}, "ensures", "C17-env-collection", msg))
     return {"function": "dask/config.py:merge/update/collect_env/serialize (real code)", "bounded": True, "bound": {"random nested dicts": "depth <= 3 over 5 keys incl. both spellings", "count": 400 if tier == "quick" else 8000, "serialize": "all strings of length <= 3 over 8 characters (incl. > ? ~ and non-ASCII) as values and keys"},
             "cases": cases, "distinct_nontrivial": cases, "failures_found": len(fails), "wall_s": round(time.time() - t0, 2),
             "samples": [{"native_case": {"dicts": [{"a": {"b": 1}}, {"a": {"c": 2}}]}}], "failures": fails[:5]}
